@@ -1,11 +1,11 @@
 #!/bin/bash
-# Refreshes the isolated copy /tmp/mx/{repo,verif} (used for running the checks against seeded
+# Refreshes the isolated copy ${MX:-/tmp/mx}/{repo,verif} (used for running the checks against seeded
 # changes while /repo itself stays untouched): working trees are rsynced, build output is kept.
 set -e
-mkdir -p /tmp/mx/repo /tmp/mx/verif
-rsync -a --delete --exclude target /repo/ /tmp/mx/repo/
-rsync -a --delete --exclude 'target*' --exclude work --exclude replays --exclude evidence /verif/ /tmp/mx/verif/
-mkdir -p /tmp/mx/verif/evidence /tmp/mx/verif/replays
-sed -i 's#path = "/repo"#path = "/tmp/mx/repo"#' /tmp/mx/verif/harness/Cargo.toml /tmp/mx/verif/sanit/*/Cargo.toml
-git -C /tmp/mx/repo status --porcelain --untracked-files=no | head -3
+mkdir -p ${MX:-/tmp/mx}/repo ${MX:-/tmp/mx}/verif
+rsync -a --delete --exclude target /repo/ ${MX:-/tmp/mx}/repo/
+rsync -a --delete --exclude 'target*' --exclude work --exclude replays --exclude evidence /verif/ ${MX:-/tmp/mx}/verif/
+mkdir -p ${MX:-/tmp/mx}/verif/evidence ${MX:-/tmp/mx}/verif/replays
+sed -i "s|path = \"/repo\"|path = \"${MX:-/tmp/mx}/repo\"|" ${MX:-/tmp/mx}/verif/harness/Cargo.toml ${MX:-/tmp/mx}/verif/sanit/*/Cargo.toml
+git -C ${MX:-/tmp/mx}/repo status --porcelain --untracked-files=no | head -3
 echo synced
